@@ -266,7 +266,7 @@ func c05scopeCorpus() []*c05ScopeCase {
 		// child scopes are re-used by name; nearest definition; let
 		{"scope-corpus", []c05Op{g, set(0, "a", lNum(1)), child(0, "b"), child(0, "b"), child(0, "c"), set(1, "a", lNum(2)), set(1, "z", lNum(3)),
 			get(0, "a"), get(0, "z"), get(1, "z"), let(2, "a", lNum(4)), get(2, "a"), get(0, "a"), child(1, "b"), get(3, "z"), get(3, "q")}},
-		// lists: negative, out of range, not a number
+		// lists: negative, out of range (errors since 07794bb, never panics), not a number
 		{"scope-corpus", []c05Op{g, set(0, "l", lList(lNum(1), lNum(2), lNum(3))), get(0, "l.-1"), set(0, "l.-3", lNum(9)), get(0, "l.0"), get(0, "l.3"),
 			get(0, "l.-4"), set(0, "l.-4", lNum(0)), set(0, "l.3", lNum(0)), get(0, "l.x"), set(0, "l.x", lNum(0)), get(0, "l.+1"), get(0, "l.01"), get(0, "l"), get(0, "l..0"), get(0, "")}},
 		// aliasing through a second name
